@@ -161,7 +161,11 @@ impl Gen {
             let tr = self.rng.gen_range(0..5);
             ops.push(Op::Cap(s, v, tr, Some(p)));
         } else if pick(w_mkt) {
-            advance(self, &mut ops);
+            // a market order never queues, so the clock discipline says nothing about its timestamp: now and then it
+            // arrives at the very time of the previous operation
+            if prof == "ties" || !self.chance(0.35) {
+                advance(self, &mut ops);
+            }
             let s = self.chance(0.5);
             let v = self.vol();
             let tr = self.rng.gen_range(0..5);
@@ -209,6 +213,10 @@ impl Gen {
         } else if pick(w_toggle) {
             self.trading = !self.trading;
             ops.push(Op::Trading(self.trading));
+            if self.chance(0.2) {
+                // the same request again: redundant, must change nothing
+                ops.push(Op::Trading(self.trading));
+            }
         } else if pick(w_reset) {
             ops.push(Op::ResetVol);
         } else if pick(w_reload) {
